@@ -105,6 +105,33 @@ def add_new_constant_tensor(
   return new_tensor_id
 
 
+def _get_unique_tensor_name(
+    tensor_name: Union[str, bytes], subgraph: schema_py_generated.SubGraphT
+) -> Union[str, bytes]:
+  """Returns tensor_name, suffixed if a tensor with that name already exists.
+
+  Args:
+    tensor_name: The desired name of a new tensor.
+    subgraph: The subgraph where the new tensor is added.
+
+  Returns:
+    A name that no tensor in the subgraph has.
+  """
+
+  def to_bytes(name):
+    return name.encode('utf-8') if isinstance(name, str) else name
+
+  existing_names = set(to_bytes(tensor.name) for tensor in subgraph.tensors)
+  unique_name, count = tensor_name, 0
+  while to_bytes(unique_name) in existing_names:
+    count += 1
+    suffix = '_%d' % count
+    if isinstance(tensor_name, bytes):
+      suffix = suffix.encode('utf-8')
+    unique_name = tensor_name + suffix
+  return unique_name
+
+
 def add_new_activation_tensor(
     tensor_name: str,
     shape: list[int],
@@ -125,7 +152,7 @@ def add_new_activation_tensor(
   new_tensor = schema_py_generated.TensorT()
   new_tensor.shape = shape
   new_tensor.type = tensor_type
-  new_tensor.name = tensor_name
+  new_tensor.name = _get_unique_tensor_name(tensor_name, subgraph)
   new_tensor.buffer = 0
   new_tensor_id = len(subgraph.tensors)
   subgraph.tensors.append(new_tensor)
